@@ -539,6 +539,64 @@ fn cli_argv(ctx: &Ctx) {
     });
 }
 
+/// Structured argument vectors: complete, otherwise valid invocations whose FILE and -o values are hostile
+/// path strings (empty, dot paths, trailing slashes, components after a regular file, directories).
+fn cli_structured_argv(ctx: &Ctx) {
+    let mut rng = Rng::fork(ctx.seed, "C09-sargv");
+    let alice = crate::cli::Ident::new("alice", "apw", &mut rng);
+    let bob = crate::cli::Ident::new("bob", "bpw", &mut rng);
+    let kr = crate::cli::keyring_text(&[(&alice, true), (&bob, true)]);
+    let kf = refspec::encode_key_file(&alice.sk, &alice.pk, &bob.pk, &rng.arr32(), &rng.arr32(), b"hello", &[5]).unwrap();
+    let pf = refspec::encode_pass_file(b"apw", &rng.arr32(), b"hello", &[5]);
+    let paths = ["", ".", "..", "/", "./", "exists.bin", "./exists.bin", "exists.bin/", "exists.bin/..", "exists.bin/x", "sub", "sub/", "sub/..", "sub/new", "missing", "missing/..", "missing/new", "-", "--", "\u{e9}\u{1f511}", "a\nb", " "];
+    let mut jobs: Vec<(usize, usize, usize)> = Vec::new();
+    for cmd in 0..4 {
+        for i in 0..paths.len() {
+            for o in 0..paths.len() {
+                if ctx.tier == Tier::Thorough || (cmd * 7 + i * 3 + o + ctx.seed as usize) % 4 == 0 || i == 5 {
+                    jobs.push((cmd, i, o));
+                }
+            }
+        }
+    }
+    ctx.note("cli_structured_argv", json!({"path_values": paths, "commands": ["encrypt", "decrypt", "password encrypt", "password decrypt"], "executions": jobs.len()}));
+    let threads = crate::util::ncpu();
+    let chunk = (jobs.len() + threads - 1) / threads;
+    par_for(threads, threads, |t| {
+        let wd = WorkDir::new("c09sargv");
+        for (cmd, i, o) in jobs.iter().skip(t * chunk).take(chunk) {
+            let _ = std::fs::remove_dir_all(&wd.path);
+            let _ = std::fs::create_dir_all(wd.path.join("sub"));
+            wd.write("kr.txt", kr.as_bytes());
+            wd.write("exists.bin", if *cmd == 1 { &kf[..] } else if *cmd == 3 { &pf[..] } else { b"plaintext" });
+            let mut args: Vec<&str> = match cmd {
+                0 => vec!["encrypt", paths[*i], "-t", "bob", "-f", "alice", "-k", "kr.txt", "--env-pass"],
+                1 => vec!["decrypt", paths[*i], "-t", "bob", "-k", "kr.txt", "--env-pass"],
+                2 => vec!["password", "encrypt", paths[*i], "--env-pass"],
+                _ => vec!["password", "decrypt", paths[*i], "--env-pass"],
+            };
+            args.push("-o");
+            args.push(paths[*o]);
+            let mut c = Cmd::new(&wd.path, &args).pass(if *cmd == 1 { "bpw" } else { "apw" });
+            c.timeout = std::time::Duration::from_secs(60);
+            let out = c.run();
+            ctx.eval();
+            let case = || json!({"argv": args, "exit": out.exit.describe(), "stderr": out.stderr_s().chars().take(500).collect::<String>()});
+            match &out.exit {
+                Exit::Code(0) => ctx.seen("cli structured argv -> exit 0"),
+                Exit::Code(1) if out.has_error_line() => {
+                    ctx.seen("cli structured argv -> exit 1 with Error: line");
+                    ctx.distinct(&format!("sargv|{}|{}|{}", cmd, i, o));
+                }
+                Exit::Code(1) => ctx.violation("C09:cli-paths:exit-1-without-error-line", case()),
+                Exit::Code(101) => ctx.violation("C09:cli-paths:panic-exit-101", case()),
+                Exit::Timeout => ctx.violation("C09:cli-paths:hang", case()),
+                other => ctx.violation(&format!("C09:cli-paths:{}", other.describe()), case()),
+            }
+        }
+    });
+}
+
 /// Hostile files and keyrings through the real binary (both profiles of the CLI).
 fn cli_files(ctx: &Ctx) {
     let mut rng = Rng::fork(ctx.seed, "C09-clifiles");
@@ -612,6 +670,41 @@ fn cli_files(ctx: &Ctx) {
             ctx.violation(&format!("C09:cli-keyring:{}", o.exit.describe()), json!({"keyring": hex_short(k, 300), "exit": o.exit.describe(), "stderr": o.stderr_s()}));
         }
     }
+    // hostile environment values and hostile stdin (key names): errors only
+    {
+        use std::os::unix::ffi::OsStringExt;
+        let bad = std::ffi::OsString::from_vec(vec![0x66, 0xff, 0xfe, 0x80]);
+        wd.write("in.ktl", &f);
+        wd.write("p.txt", b"x");
+        let mut runs: Vec<(String, Cmd)> = Vec::new();
+        runs.push(("KESTREL_PASSWORD not UTF-8 (decrypt)".into(), Cmd::new(&wd.path, &["decrypt", "in.ktl", "-t", "bob", "-k", "kr.txt", "--env-pass"]).env_os("KESTREL_PASSWORD", bad.clone())));
+        runs.push(("KESTREL_PASSWORD not UTF-8 (password encrypt)".into(), Cmd::new(&wd.path, &["password", "encrypt", "p.txt", "--env-pass"]).env_os("KESTREL_PASSWORD", bad.clone())));
+        runs.push(("KESTREL_KEYRING not UTF-8".into(), Cmd::new(&wd.path, &["decrypt", "in.ktl", "-t", "bob", "--env-pass"]).pass("bpw").env_os("KESTREL_KEYRING", bad.clone())));
+        runs.push(("KESTREL_NEW_PASSWORD not UTF-8".into(), Cmd::new(&wd.path, &["key", "change-pass", &alice.locked, "--env-pass"]).pass("apw").env_os("KESTREL_NEW_PASSWORD", bad.clone())));
+        runs.push(("KESTREL_NEW_PASSWORD unset".into(), Cmd::new(&wd.path, &["key", "change-pass", &alice.locked, "--env-pass"]).pass("apw")));
+        runs.push(("keyring is a directory".into(), Cmd::new(&wd.path, &["decrypt", "in.ktl", "-t", "bob", "-k", ".", "--env-pass"]).pass("bpw")));
+        runs.push(("keyring is /dev/null".into(), Cmd::new(&wd.path, &["decrypt", "in.ktl", "-t", "bob", "-k", "/dev/null", "--env-pass"]).pass("bpw")));
+        runs.push(("empty private key argument".into(), Cmd::new(&wd.path, &["key", "extract-pub", "", "--env-pass"]).pass("x")));
+        runs.push(("private key argument of 100 kB".into(), Cmd::new(&wd.path, &["key", "extract-pub", &"A".repeat(100_000), "--env-pass"]).pass("x")));
+        for (what, name) in [("NUL in the key name", b"a\0b\n".to_vec()), ("key name not UTF-8", vec![0xff, 0xfe, b'\n']), ("key name of 1 MB", vec![b'n'; 1 << 20]), ("key name of only spaces", b"     \n".to_vec()), ("no newline after the key name", b"joe".to_vec())] {
+            runs.push((format!("key generate: {}", what), Cmd::new(&wd.path, &["key", "generate", "--env-pass"]).pass("pw").stdin(Stdin::Bytes(name))));
+        }
+        for (what, cmd) in runs {
+            let o = cmd.run();
+            ctx.eval();
+            let case = || json!({"case": what, "command": cmd.describe().chars().take(300).collect::<String>(), "exit": o.exit.describe(), "stderr": o.stderr_s().chars().take(500).collect::<String>()});
+            match &o.exit {
+                Exit::Code(0) => ctx.seen("cli hostile environment/stdin -> exit 0"),
+                Exit::Code(1) if o.has_error_line() => {
+                    ctx.seen("cli hostile environment/stdin -> exit 1 + Error:");
+                    ctx.distinct(&format!("clienv|{}", what));
+                }
+                Exit::Code(1) => ctx.violation("C09:cli-env:exit-1-without-error-line", case()),
+                Exit::Timeout => ctx.violation("C09:cli-env:hang", case()),
+                other => ctx.violation(&format!("C09:cli-env:{}", other.describe()), case()),
+            }
+        }
+    }
     // thorough: one valgrind memcheck smoke run of the CLI on a hostile file
     if ctx.tier == Tier::Thorough {
         let p = wd.write("vg.ktl", &f[..f.len() - 3]);
@@ -648,9 +741,14 @@ pub fn run(ctx: &Ctx) {
     if only.is_empty() || only == "files" {
         cli_files(ctx);
     }
+    if only.is_empty() || only == "sargv" {
+        cli_structured_argv(ctx);
+    }
     ctx.require("child finished", 10);
     ctx.require("decrypt-key attacker-chosen length field", 50);
     ctx.require("noise ", 300);
     ctx.require("cli argv -> exit", 5_000);
     ctx.require("cli hostile file -> exit 1", 20);
+    ctx.require("cli structured argv -> exit", 300);
+    ctx.require("cli hostile environment/stdin -> exit", 10);
 }
